@@ -135,7 +135,23 @@ pub fn build_query(q: &Value, id: u16) -> (Msg, Vec<u8>) {
 pub fn build_reply(r: &Value, oq: &Msg) -> Msg {
     let qname = oq.question[0].0.clone();
     let alpha = record_alphabet(&qname);
-    let pick = |k: &str| -> Vec<Rr> { r[k].as_array().map(|a| a.iter().filter_map(|i| i.as_u64()).map(|i| alpha[i as usize].clone()).collect()).unwrap_or_default() };
+    let ttl_override = r["ttl_override"].as_u64().map(|t| t as u32);
+    let pick = |k: &str| -> Vec<Rr> {
+        r[k].as_array()
+            .map(|a| {
+                a.iter()
+                    .filter_map(|i| i.as_u64())
+                    .map(|i| {
+                        let mut rr = alpha[i as usize].clone();
+                        if let Some(t) = ttl_override {
+                            rr.ttl = t;
+                        }
+                        rr
+                    })
+                    .collect()
+            })
+            .unwrap_or_default()
+    };
     let rcode = r["rcode"].as_u64().unwrap_or(0) as u16;
     let mut additional = pick("ar");
     if r["opt"].as_bool().unwrap_or(false) {
